@@ -45,7 +45,7 @@ def build(flavours, root=None):
     os.makedirs(os.path.join(d, 'futex'), exist_ok=True)
     rc, err = batch.translate(module(), d, w2c2=mclib.w2c2_binary())
     if rc != 0:
-        raise mclib.MachineryError('w2c2 failed on the C17 module: ' + err)
+        raise mclib.PipelineFailure('w2c2 failed on the C17 module', err)
     # h_futex.c includes "../futex/map.h" relative to an include dir: give it REPO/w2c2 so that ../futex resolves into REPO
     incs = [d, os.path.join(REPO, 'w2c2')]
     srcs = [os.path.join(d, 'm.c'), os.path.join(mclib.MC, 'h_futex.c')] + futex_srcs()
@@ -66,7 +66,7 @@ def run_e1(chk, d, be=False):
            os.path.join(mclib.MC, 'h_futex_e1.c')] + futex_srcs() + ['-o', exe, '-lpthread']
     r = run(cmd)
     if r.returncode != 0:
-        raise mclib.MachineryError('cannot build E1 driver: ' + r.stderr.decode()[-2000:])
+        raise mclib.PipelineFailure('cannot build E1 driver', r.stderr.decode()[-2000:])
     try:
         out = run([exe], timeout=60).stdout.decode()
     except subprocess.TimeoutExpired:
@@ -107,7 +107,7 @@ def run_e3(chk, d):
            os.path.join(mclib.MC, 'h_futex_e3.c')] + futex_srcs() + ['-o', exe, '-lpthread']
     r = run(cmd)
     if r.returncode != 0:
-        raise mclib.MachineryError('cannot build E3 driver: ' + r.stderr.decode()[-2000:])
+        raise mclib.PipelineFailure('cannot build E3 driver', r.stderr.decode()[-2000:])
     try:
         rr = run([exe], timeout=120)
     except subprocess.TimeoutExpired:
@@ -420,6 +420,9 @@ def main(tier):
                             'the absolute time passed to pthread_cond_timedwait is ignored: the explorer decides when a timeout fires',
                             'waking a waiter = pthread_cond_signal on its condition variable inside the notifier\'s critical section; which waiters a notify picks is free',
                             'threads, preemptions and deviations beyond the completed bounds are not covered']
+    except mclib.PipelineFailure as e:
+        mclib.report_pipeline_failure(chk, e, 'bin/check C17 quick')
+        return chk.finish()
     except mclib.MachineryError as e:
         print('MACHINERY-ERROR C17: %s' % e)
         return 2
